@@ -9,6 +9,7 @@ import (
 	"regexp"
 	"sort"
 	"strings"
+	"syscall"
 	"time"
 
 	"verifharness/lab"
@@ -413,6 +414,7 @@ func c10History(c *vk.Ctx, r *rand.Rand, hist int, hub *TargetHub, utgt *udpTarg
 			return false
 		}
 	}
+	var bigYAML []byte
 	// a very large configuration (> 1 MiB of YAML, 13000..15000 keys on one listener): loaded as a
 	// whole - its last key authenticates - and replaced as a whole afterwards
 	if hist%3 == 0 {
@@ -429,6 +431,9 @@ func c10History(c *vk.Ctx, r *rand.Rand, hist int, hub *TargetHub, utgt *udpTarg
 		prev := cur
 		for pass, cf := range []ConfSpec{big, prev} {
 			yaml := []byte(cf.YAML())
+			if pass == 0 {
+				bigYAML = yaml
+			}
 			atomicWrite(srv.CfgPath, yaml)
 			res, err := srv.ReloadNoWrite(120 * time.Second)
 			trace = append(trace, fmt.Sprintf("large-config-pass-%d(%d bytes)->%s", pass, len(yaml), res))
@@ -452,6 +457,41 @@ func c10History(c *vk.Ctx, r *rand.Rand, hist int, hub *TargetHub, utgt *udpTarg
 				return false
 			}
 		}
+	}
+	// two updates in quick succession, the first one slow (the large file), the second one fast (the
+	// small file again): when both are through, the configuration in force is the LAST file written
+	if hist%3 == 0 && bigYAML != nil {
+		atomicWrite(srv.CfgPath, bigYAML)
+		syscall.Kill(srv.Pid, syscall.SIGHUP)
+		time.Sleep(300 * time.Millisecond) // the first signal has been taken by now; its (slow) reload is in progress
+		atomicWrite(srv.CfgPath, []byte(cur.YAML()))
+		syscall.Kill(srv.Pid, syscall.SIGHUP)
+		settled := true
+		for i := 0; i < 2; i++ {
+			if _, err := srv.WaitLog([]string{"Stopped all listeners for running config", "Failed to update server"}, []time.Duration{120 * time.Second, 30 * time.Second}[i]); err != nil {
+				if i == 0 {
+					c.Violation("C10/reload-produced-no-result", map[string]any{"phase": "two updates in quick succession", "err": err.Error(), "log": srv.LogTail(2000)})
+					return false
+				}
+				// the process coalesced the two signals (the second arrived before the first was taken):
+				// nothing can be said about which file it read
+				c.Inconclusive("two SIGHUPs in quick succession were coalesced into one reload")
+				settled = false
+			}
+		}
+		if !settled {
+			// bring the server back to a defined state
+			if res, err := srv.Reload([]byte(cur.YAML()), 120*time.Second); err != nil || res != "ok" {
+				c.Violation("C10/reload-outcome", map[string]any{"expected": "ok", "got": res, "err": fmt.Sprint(err)})
+				return false
+			}
+		}
+		trace = append(trace, "burst: large file, 300 ms later the small file again")
+		c.Eval("reload|two-updates-in-quick-succession|slow-then-fast")
+		if !verify(nSteps+3, "two updates in quick succession (large file, then the small one)") {
+			return false
+		}
+		c.Count("quick_succession_updates_settled_on_the_last_file", 1)
 	}
 	// (3) goroutines and descriptors: same as a fresh start of the last loaded configuration
 	time.Sleep(1200 * time.Millisecond) // UDP associations created by the probes expire (timeout 0.4 s)
@@ -511,7 +551,7 @@ func init() {
 		Parallel:    func(t string) int { return 5 },
 		Timeout:     func(t string) time.Duration { return 25 * time.Minute },
 		Run: func(c *vk.Ctx) {
-			for _, s := range []string{"histories", "reloads_ok", "reloads_failed", "matrix_probes", "rotated_id_probes", "final_goroutine_and_fd_audits", "large_configurations_loaded_completely"} {
+			for _, s := range []string{"histories", "reloads_ok", "reloads_failed", "matrix_probes", "rotated_id_probes", "final_goroutine_and_fd_audits", "large_configurations_loaded_completely", "quick_succession_updates_settled_on_the_last_file"} {
 				c.Require(s)
 			}
 			c10Run(c)
